@@ -32,6 +32,8 @@ def run(chk: Check, ctx: Any) -> None:
                        "end label placed after the loop; params list is new on every path and substitutes by variable name")
     chk.rule("C05-R2", "call binding dict(zip(macro.variables, args)); variables in header order; macro looked up by the call's name without '~'")
     chk.rule("C05-R3", "imports: './' and '/' against the importing file's directory; otherwise lookup paths in list order, first existing wins; inherited by sub-compilers")
+    chk.rule("C05-R5", "cyclic imports: the file about to be imported is tested against the chain of files currently being imported; the chain handed to a "
+                       "sub-compiler is a fresh list (own chain + importing file) and is never modified in place")
     chk.rule("C05-R4", "macro order = topological order of the dependency graph (edges callee -> caller), not a traversal order")
 
     build = repo.func(f"{MACRO}:ExplorerScriptMacro.build")
@@ -242,6 +244,26 @@ def run(chk: Check, ctx: Any) -> None:
     chk.decide("C05-R3", "imports:base-dir", ok, comp, "imports are not resolved against the directory of the file being compiled", "dirname(file_name)")
     upd = [c for c in walk_no_nested(comp.node) if isinstance(c, ast.Call) and norm(c.func) == "self.macros.update"]
     chk.decide("C05-R3", "imports:macros-merged", len(upd) == 2, comp, "macros of imported files and own macros are not both merged into self.macros", "imported and own macros merged")
+
+    # ------------------------------------------------------------------ R5: the recursion check list is the chain of files being imported
+    from ..engine import astq as _astq
+    rc_kw = [k for c in ctor for k in c.keywords if k.arg == "recursion_check"] if ctor else []
+    if not rc_kw:
+        chk.unknown("C05-R5", "imports:recursion-chain", comp, "the sub-compiler is not given a recursion_check list")
+    else:
+        t = norm(rc_kw[0].value)
+        ok = t in ("self.recursion_check + [file_name]", "[*self.recursion_check, file_name]", "[file_name] + self.recursion_check")
+        chk.decide("C05-R5", "imports:recursion-chain", True if ok else None, comp,
+                   f"the sub-compiler's recursion_check is `{t}`", "own chain + the importing file (a fresh list)", node=rc_kw[0].value)
+    ccls = comp.cls
+    muts = [(mn, x) for mn, m in ccls.methods.items() if mn != "__init__" for x in _astq.inplace_mutations(m, "recursion_check")]  # type: ignore[union-attr]
+    chk.decide("C05-R5", "imports:recursion-chain-not-mutated", not muts, comp,
+               "self.recursion_check is modified in place" + (f" (`{norm(muts[0][1])[:60]}` in {muts[0][0]}())" if muts else "") +
+               ": the list then also names files imported earlier by this file, and an acyclic layout (main imports base and util, util imports base) is "
+               "rejected as infinite recursion", "the chain list is never modified in place", node=muts[0][1] if muts else None)
+    tests = [n for n in walk_no_nested(comp.node) if isinstance(n, ast.Compare) and norm(n).endswith("in self.recursion_check")]
+    chk.decide("C05-R5", "imports:recursion-test", bool(tests) and norm(tests[0].left) in ("subfile_path",), comp,
+               "the file about to be imported is not tested against the chain of importing files", "subfile_path in self.recursion_check")
 
     # ------------------------------------------------------------------ R4
     vs = repo.func(f"{MRO}:MacroResolutionOrderVisitor.visitStart")
